@@ -85,6 +85,22 @@ def _solve(i):
             s3.add(*fs)
             s3.add(*T.ground_axioms(fs))
             r = s3.check()
+        if r == z3.sat and kind != 'cover':
+            # confirm the abstract counter-model under the concrete meaning of pow2 / & | ^ / bit_length
+            sc = z3.Solver()
+            sc.set('timeout', max(timeout, 20000))
+            sc.add(*fs)
+            sc.add(*T.concrete_theory(fs))
+            rc = sc.check()
+            if rc == z3.sat:
+                m = sc.model()
+                model = 'confirmed over Python integers (bounded to 16-bit quantities): ' + \
+                    ', '.join('%s=%s' % (d.name(), m[d]) for d in m.decls() if d.arity() == 0)[:1500]
+            elif rc == z3.unsat:
+                return (i, 'unknown:abstract-sat-not-confirmed (spurious under the concrete theory up to 16 bits)',
+                        time.time() - t0, model)
+            else:
+                return (i, 'unknown:abstract-sat-confirmation-timeout', time.time() - t0, model)
         return (i, str(r), time.time() - t0, model)
     except Exception:
         return (i, 'error:' + traceback.format_exc()[-400:], time.time() - t0, None)
